@@ -251,7 +251,7 @@ Print Assumptions no_panic.
     between the implementation and the proved model, never an excess demand of the predicate. *)
 Theorem model_passes_check :
   forall (names : list Z) (steps : list step),
-    run_consistent init steps = true -> Forall step_ok steps ->
+    run_consistent init steps = true -> Forall (step_ok names) steps ->
     check_case (model_trace names init steps) = (-1, -1, 0).
 Proof. exact model_passes_check_lemma. Qed.
 Print Assumptions model_passes_check.
@@ -266,7 +266,7 @@ Print Assumptions compressed_cases_lossless.
 
 Theorem model_passes_check_compressed :
   forall (names : list Z) (steps : list step),
-    run_consistent init steps = true -> Forall step_ok steps ->
+    run_consistent init steps = true -> Forall (step_ok names) steps ->
     check_case_c (compress_from [] (model_trace names init steps)) = (-1, -1, 0).
 Proof. exact model_passes_check_c_lemma. Qed.
 Print Assumptions model_passes_check_compressed.
@@ -310,7 +310,7 @@ Ltac c17_sev := first [exact I | right; intros o Ho; simpl in Ho; repeat (destru
 Ltac c17_step := first [exact I | (unfold step_ok; cbn [snd]; repeat (constructor; [c17_sev|]); constructor)].
 
 Example c17_model_trace_nonvacuous :
-  run_consistent init ex_history = true /\ Forall step_ok ex_history
+  run_consistent init ex_history = true /\ Forall (step_ok [7; 8]) ex_history
   /\ length (model_trace [7; 8] init ex_history) = 13%nat.
 Proof.
   split; [vm_compute; reflexivity|]. split; [|reflexivity].
@@ -319,6 +319,35 @@ Qed.
 
 (** the range hypothesis of theorem 2 holds of ordinary values *)
 Example c17_in_range : in_range (extract 0 (ex_out (-3))) /\ in_range (q_of_dec (123456789, 6)).
+Proof. repeat split; vm_compute; reflexivity. Qed.
+
+(** ** 8. the oracle price service (keeper.ModuleServiceRequest) reads exactly what section 4 says is there
+
+    Asked for feed [name] at block time [now] after any well-formed history, it answers from the
+    NEWEST value ever produced for that feed (the head of the ledger): 400 when the feed does not
+    exist, 401 when no batch ever met its threshold, 402 when that newest value is older than 5
+    minutes of BLOCK time, else 200 with exactly that value; it is what the FeedValue query shows
+    first; and it is a read. *)
+Theorem price_service_reads_newest_value :
+  forall (h : list step) (name now : Z),
+    run_wfb init h = true ->
+    let s := run init h in
+    let L := ledger_run init h name ([], 0) in
+    price_request s now name = price_answer (has name (feeds s)) (fst L) now
+    /\ price_request s now name = price_answer (has name (feeds s)) (query_values s name) now.
+Proof. exact price_service_lemma. Qed.
+Print Assumptions price_service_reads_newest_value.
+
+Theorem price_service_is_a_read :
+  forall (s : state) (now name code data : Z), exec s (now, OPrice name code data) = (Ok, s).
+Proof. exact price_is_a_read. Qed.
+Print Assumptions price_service_is_a_read.
+
+Example c17_price_nonvacuous :
+  price_request (run init (firstn 9 ex_history)) 420 7 = (200, 600000000)
+  /\ price_request (run init (firstn 9 ex_history)) 421 7 = (402, 0)
+  /\ price_request (run init (firstn 2 ex_history)) 421 7 = (401, 0)
+  /\ price_request (run init ex_history) 421 9 = (400, 0).
 Proof. repeat split; vm_compute; reflexivity. Qed.
 
 (** ** 7. the hypothesis [run_wfb], derived from the service group's model
